@@ -432,7 +432,7 @@ def record_protocol(ctx, rule, once_rule=None):
         op_calls = [(c, s, b) for c, s, b in ff.calls if _is_operation(c.orig if hasattr(c, 'orig') else c) and _inside(s, node)]
         first_op = min((ff.seq(s) for c, s, b in op_calls), default=None)       # execution order, not line order
         ok_pre = bool(pre_stores) and first_op is not None and all(
-            ff.seq(s[0]) < first_op and _reads_results(s[3]) for s in pre_stores)
+            ff.seq(s[0]) < first_op and _reads_results(s[3], ff) for s in pre_stores)
         ctx.ob(rule, bake, (pre_stores[0][0].lineno if pre_stores else node.lineno),
                f"`{op}` branch: step.to[0] is bound to the current object before the operation", ok_pre,
                fact=f"{len(pre_stores)} binding(s) of step.to[0]" + (f" = {show(pre_stores[0][3], 40)}" if pre_stores else ''),
@@ -521,9 +521,28 @@ def _is_results_ref(a):
     return False
 
 
-def _reads_results(v):
+def _reads_results(v, ff=None):
     v = strip_refs(v)
-    return isinstance(v, ast.Subscript) and path_from_param(v.value) == ('self', ['results'])
+    if isinstance(v, ast.Subscript) and path_from_param(v.value) == ('self', ['results']):
+        return True
+    # `X.plate if isinstance(X, PlateSlicer) else X` where X is the current object of the name: the entry of
+    # self.results, or a copy of the slice whose .plate was pointed at that entry (a resolver helper, inlined)
+    if ff is not None and isinstance(v, ast.IfExp) and isinstance(v.body, ast.Attribute) and v.body.attr == 'plate' and \
+            isinstance(v.test, ast.Call) and getattr(v.test.func, 'id', '') == 'isinstance':
+        x = strip_refs(v.orelse)
+        if strip_refs(v.body.value) is not x:
+            return False
+        options = [strip_refs(o) for o in x.options] if isinstance(x, Phi) else [x]
+        for o in options:
+            if isinstance(o, ast.Subscript) and path_from_param(o.value) == ('self', ['results']):
+                continue
+            repointed = [st for st in ff.stores if isinstance(st[1], ast.Attribute) and st[1].attr == 'plate'
+                         and strip_refs(ff.resolve(st[1].value, ff.state_before(st[0]))) is o and _reads_results(st[3])]
+            if isinstance(o, ast.Call) and getattr(o.func, 'id', '') == 'deepcopy' and repointed:
+                continue
+            return False
+        return bool(options)
+    return False
 
 
 def substances_used(ctx):
